@@ -10,7 +10,7 @@ def gansOf? : String → Option GAns
   | "otherfork:60" => some (.valid 1060 60)
   | "oversized" => some (.valid 60 60)      -- the client reads only the one response it asked for
   | "hang" => some .hang
-  | "wrongchain" | "nochain" | "invalid" | "garbage" | "truncated" | "status" | "emptybody" | "empty" | "notfound" | "reset" => some .fail
+  | "wrongchain" | "nochain" | "panicdecode" | "panicvalidate" | "invalid" | "garbage" | "truncated" | "status" | "emptybody" | "empty" | "notfound" | "reset" => some .fail
   | _ => none
 
 def hdrTag : Nat → String
